@@ -88,6 +88,8 @@ Build(c) ==
     [] c.c \in {"of", "haskey", "mayhavekey", "nok"} -> BuildAll(c.cs)
     [] c.c = "when" -> IF Build(c.g[1]) # "ok" THEN "bad-arguments" ELSE BuildAll(c.cs)
     [] c.c = "not" -> Build(c.g[1])
+    \* a type that is itself a validator (a named type, a nested validator) narrowed by further constraints
+    [] c.c = "derived" -> IF Build(c.g[1]) # "ok" THEN "bad-arguments" ELSE BuildAll(c.cs)
     [] OTHER -> "ok"
 
 \* -------------------------------------------------------------- validation
@@ -127,6 +129,7 @@ Accept(c, v, L) ==
                        ELSE IF Accept(c.g[1], MapGet(v, c.k).v, L) # "ok" THEN "ok"
                        ELSE AcceptAll(c.cs, MapGet(v, c.k2).v, L)
     [] c.c = "not" -> IF Accept(c.g[1], v, L) # "ok" THEN "ok" ELSE "failed-constraint"
+    [] c.c = "derived" -> LET r == Accept(c.g[1], v, L) IN IF r # "ok" THEN r ELSE AcceptAll(c.cs, v, L)
     [] c.c = "istrue" -> IF (v.t = "bool" \/ (L /\ v.t = "str")) /\ v.s = "true" THEN "ok" ELSE "failed-constraint"
     [] c.c = "isfalse" -> IF (v.t = "bool" \/ (L /\ v.t = "str")) /\ v.s = "false" THEN "ok" ELSE "failed-constraint"
     [] c.c = "istruthy" -> IF Truthy(v) THEN "ok" ELSE "failed-constraint"
@@ -152,5 +155,9 @@ Spec == Init /\ [][Next]_vars
 NotInverts == (cur.schema.c = "not" /\ Build(cur.schema) = "ok") =>
                 \A j \in 1..NV : ((Accept(cur.schema, cur.values[j], FALSE) = "ok") <=> (Accept(cur.schema.g[1], cur.values[j], FALSE) # "ok"))
 FalsyIsNotTruthy == (cur.schema.c = "isfalsy") => \A j \in 1..NV : ((Accept(cur.schema, cur.values[j], FALSE) = "ok") <=> ~Truthy(cur.values[j]))
+\* a derived type accepts exactly what its base type accepts AND every further constraint accepts
+DerivedNarrows == (cur.schema.c = "derived" /\ Build(cur.schema) = "ok") =>
+                    \A j \in 1..NV : ((Accept(cur.schema, cur.values[j], FALSE) = "ok") <=>
+                                        (Accept(cur.schema.g[1], cur.values[j], FALSE) = "ok" /\ AcceptAll(cur.schema.cs, cur.values[j], FALSE) = "ok"))
 MalformedNeverPasses == Build(cur.schema) # "ok" => \A j \in 1..NV : Verdict(cur.schema, cur.values[j], FALSE) = "bad-arguments"
 =============================================================================
